@@ -104,6 +104,9 @@ def configs(tier: str):
         add(mode=mode, closure=closure, size=size, tx2=dict(req_mode=m2, req_closure=c2))
     for (mode, closure), size in itertools.product((("ack", False), ("unack", True), ("unack", False)), (0, L + 1)):
         add(mode=mode, closure=closure, size=size, tx2=dict(md_only=True))
+        if size:
+            for cks in ("crc32", "mod"):
+                add(mode=mode, closure=closure, size=size, cks=cks, tx2=dict(rewrite=True))  # same file name and length, other contents
         add(mode=mode, closure=closure, size=size, md_only=True, tx2=dict(md_only=False))
     # a premature put request (refused: the handler is busy) at any point of the transfer must leave it alone
     for mode, closure, size, md in itertools.product(("ack", "unack"), (False, True), (0, L + 1, 2 * L + 1), (False, True)):
